@@ -73,6 +73,9 @@ func checkC16(c *Check) {
 	c.Rule("R3", "reply converters: the default code pair is coherent on both edges of the temporariness predicate (4xx/4 when temporary, 5xx/5 otherwise), and the queue converter uses the predicate that drives retry", 2)
 	c16Converters(c)
 
+	c.Rule("R3c", "tryDelivery: the status kept for the report and the retry decision come from the same error: every path to the temporariness classification of an attempt's error has stored that error's conversion as the recipient's status (a status left over from an earlier attempt can have the other class)", 1)
+	c16StatusFromThisAttempt(c)
+
 	c.Rule("R3b", "reply converters: when the basic code is copied from a typed error the enhanced code is copied from the same error in the same block, and vice versa (a reply never combines the code of one source with the class of another)", 2)
 	for _, cv := range [][3]string{{"internal/target/queue", "", "toSMTPErr"}, {"internal/endpoint/smtp", "Endpoint", "wrapErr"}} {
 		fi := p.Func(cv[0], cv[1], cv[2])
@@ -747,6 +750,17 @@ func c16Judge(code, ench absVal) (bool, string) {
 
 func c16Helpers(c *Check) {
 	p := c.P
+	usedPred := map[string]string{}
+	defer func() {
+		// the two helpers are used side by side at every site that builds a reply from an error (Code: SMTPCode(err, …),
+		// EnhancedCode: SMTPEnchCode(err, …)): they must classify with the SAME predicate – an error without a
+		// Temporary() method is temporary for IsTemporaryOrUnspec and permanent for IsTemporary, and the reply would
+		// read 451 5.x.x
+		a, b := usedPred["SMTPCode"], usedPred["SMTPEnchCode"]
+		if a != "" && b != "" {
+			c.Hold("R2", "exterrors.helpers:same-predicate", token.NoPos, a == b, "SMTPCode classifies with "+a+" but SMTPEnchCode with "+b+": for an error that does not say whether it is temporary (a closed connection, a plain error from a policy) the basic code and the enhanced code of one reply get different classes (451 with 5.4.0)")
+		}
+	}()
 	for _, name := range []string{"SMTPCode", "SMTPEnchCode"} {
 		fi := p.Func("framework/exterrors", "", name)
 		if fi == nil {
@@ -797,6 +811,11 @@ func c16Helpers(c *Check) {
 				// the predicate may be negated or part of a compound condition: what the edge says about it
 				for _, af := range atomsOnEdge(d.Cond, d.Succ) {
 					if call, ok := ast.Unparen(af.E).(*ast.CallExpr); ok && isCall(info, call, exterrPkg+".IsTemporary", exterrPkg+".IsTemporaryOrUnspec") {
+						if q := refName(callee(info, call)); usedPred[name] == "" || usedPred[name] == q {
+							usedPred[name] = q
+						} else {
+							usedPred[name] = "several predicates"
+						}
 						if af.T {
 							temp = 1
 						} else {
@@ -1476,5 +1495,62 @@ func c16InPlace(c *Check) {
 	}
 	if n == 0 {
 		c.Fail("R1f", "sites", token.NoPos, "undecided: no error built from a literal is adjusted in place")
+	}
+}
+
+
+// R3c: see the rule text. In tryDelivery the error e of a recipient is classified with the temporariness predicate
+// (retry or give up); the status the failure report shows is RcptErrs[rcpt]. If the store of toSMTPErr(e) can be
+// skipped on a path to the classification, the recipient is given up (class 5 treatment) while the report shows the
+// 4.x.x status of an earlier attempt – or the other way round.
+func c16StatusFromThisAttempt(c *Check) {
+	r := c.need("R3c", "internal/target/queue", "Queue", "tryDelivery")
+	if r == nil {
+		return
+	}
+	info := r.Info
+	n := 0
+	for _, pt := range r.F.Points() {
+		for _, call := range callsAt(pt.Node()) {
+			if !isCall(info, call, exterrPkg+".IsTemporary", exterrPkg+".IsTemporaryOrUnspec") || len(call.Args) != 1 {
+				continue
+			}
+			e := objOf(info, call.Args[0])
+			if e == nil {
+				continue
+			}
+			// the definition(s) of e inside the function: the look-up of the attempt's error
+			var defs []Pt
+			for _, dp := range r.F.Points() {
+				if dp.Node() != nil && assignsObj(info, dp.Node(), e) {
+					defs = append(defs, dp)
+				}
+			}
+			if len(defs) == 0 {
+				continue
+			}
+			n++
+			stores := func(q Pt) bool {
+				as, ok := q.Node().(*ast.AssignStmt)
+				if !ok || len(as.Lhs) != len(as.Rhs) {
+					return false
+				}
+				for i, l := range as.Lhs {
+					ix, isIx := ast.Unparen(l).(*ast.IndexExpr)
+					if !isIx || !isField(info, ix.X, "QueueMetadata", "RcptErrs") {
+						continue
+					}
+					if mentions(info, as.Rhs[i], e) {
+						return true
+					}
+				}
+				return false
+			}
+			path, f := r.F.Reach(Query{From: defs, Target: func(q Pt) bool { return q == pt }, Avoid: func(q Pt) bool { return stores(q) || (q != pt && isPt(defs)(q)) }})
+			c.Hold("R3c", "tryDelivery:classified-error-is-the-stored-status", call.Pos(), !f, "the error of this attempt is classified (retry / give up) on a path on which it was not stored as the recipient's status: the report shows the status of an earlier attempt, whose class can differ from how the failure was treated (given up after a permanent refusal, reported as 4.x.x): "+r.F.Describe(path))
+		}
+	}
+	if n == 0 {
+		c.Fail("R3c", "tryDelivery:classification", r.FI.Decl.Pos(), "undecided: no temporariness classification of an attempt's error in tryDelivery")
 	}
 }
